@@ -335,6 +335,60 @@ def part_pairs(args):
     return n, res, {}
 
 
+def part_change(args):
+    """two Subscribe datagrams for one eventgroup and counter inside one send-collection window whose verdicts
+    differ because something changed in between (the listener's policy, the announcer being started): both
+    answers must leave, in order"""
+    s, s2, scenario, gap = args
+    res = []
+    name = "not-started" if scenario == "start-between" else "running"
+    loop, seam, prot, log, listeners, specs, egs = build_world(name, s, s2, scenario == "reject-then-accept", C)
+    try:
+        e1_ = (s, 1, 1, 6, 0, 3, 1, 0)
+        e2_ = e1_
+        t0 = loop.time()
+        prot.datagram_received(refcodec.sd_message(1, [entry_tuple(e1_)]), CL, False)
+        if gap:
+            loop.run_until(t0 + gap)
+        if scenario == "reject-then-accept":
+            listeners[0].reject.discard(6)
+            want = [0, 3]
+        elif scenario == "accept-then-reject":
+            listeners[0].reject.add(6)
+            # another endpoint: a new subscription (a refresh of the accepted one would not ask the listener)
+            e2_ = (s, 1, 1, 6, 0, 3, 1, 0)
+            want = [3, 0]
+        else:
+            prot.announcer.start()
+            want = [0, 3]
+        ent2 = entry_tuple(e2_)
+        if scenario == "accept-then-reject":
+            ent2 = ent2[:6] + ((refcodec.v4("192.0.2.92", 4100),), ())
+        prot.datagram_received(refcodec.sd_message(2, [ent2]), CL, False)
+        loop.run_until(t0 + 4 * C)
+        acks = []
+        for t, it, d, addr in prot.transport.sent:
+            for m in refcodec.dec_sd_datagram(d):
+                acks += [(x[5] & 0xFFFF, (x[5] >> 16) & 0xF, x[4], addr, t) for x in m["entries"] if x[0] == "suback"]
+        got = [a[2] for a in acks if a[0] == 6 and a[1] == 0]
+        case = dict(change=scenario, gap=gap, sids=(s, s2))
+        if got != want:
+            disc = "missing" if len(got) < len(want) else ("extra" if len(got) > len(want) else "verdict")
+            res.append(("answer", f"{disc}-verdict-changed-within-window",
+                        f"{scenario}, second Subscribe {gap} s after the first (collection window {C}): SubscribeAck TTLs "
+                        f"on the wire {got}, expected {want}", case))
+        if any(a[3] != CL for a in acks):
+            res.append(("answer", "destination", f"acks {acks}", case))
+        if any(not (t0 <= a[4] <= t0 + gap + C) for a in acks):
+            res.append(("answer", "time", f"acks {acks}", case))
+    except Exception as ex:  # noqa: BLE001
+        res.append(("no-exception", type(ex).__name__, str(ex), dict(change=scenario, gap=gap, sids=(s, s2))))
+    finally:
+        seam.__exit__(None, None, None)
+        loop.dispose()
+    return 1, res, {}
+
+
 def check(ctx):
     s, s2 = sids(ctx.seed)
     jobs = [(name, s, s2, reject, mc, prior, col, ctx.thorough)
@@ -345,6 +399,8 @@ def check(ctx):
     pj = [(name, s, s2, reject, col) for name in ("running", "three", "stopped", "wild-instance")
           for reject in (0, 1) for col in (0, C)]
     out2 = core.pmap(part_pairs, pj, 1) + core.pmap(part_shared, pj, 1)
+    out2 += core.pmap(part_change, [(s, s2, sc, gap) for sc in ("reject-then-accept", "accept-then-reject", "start-between")
+                                    for gap in (0, C / 4, C / 2, C - 2.0 ** -10)], 4)
     viols = []
     classes = {}
     n = 0
@@ -379,6 +435,19 @@ def check(ctx):
 def replay(ctx, body):
     c = body["case"]
     s, s2 = c["sids"]
+    if "change" in c:
+        _, res, _ = part_change((s, s2, c["change"], c["gap"]))
+        for o in res:
+            print("FAILS:", o[:3])
+        return 1 if res else 0
+    if c.get("shared"):
+        print("re-running the shared-option-run cases of this server configuration")
+        res = []
+        for col in (0, C):
+            res += part_shared((c["server"], s, s2, c.get("reject", 0), col))[1]
+        for o in res[:5]:
+            print("FAILS:", o[:3])
+        return 1 if res else 0
     ents = [tuple(e) for e in c["entries"]]
     if c.get("twin"):
         ok = multicast_twin(c["server"], s, s2, c["reject"], c["prior"], c["collect"], ents)
